@@ -256,6 +256,14 @@ class ReopenEngine(Engine):
                     out.log.add(ev="reopen", i=i, hist=kernel.short_hash(realize.history_struct(B.project)))
                     continue
                 if op == "oi":
+                    if st["kind"] != "del":
+                        # by-product check on the generated value itself (both encodings of the
+                        # serializer, through JSON *text*); the stateful path is the save/reload below
+                        rt = self._serializer_roundtrip(from_jsonable(st["value"]))
+                        if rt is not None:
+                            out.violate("json_text_roundtrip", {"op": "oi", "file": "serializer", "version": rt[0]},
+                                        {"step": i, "value": st["value"], "problem": rt[1]}, where=i)
+                            break
                     self._oi(A, st)
                     self._oi(B, st)
                     A.clock.advance(1_000_000_000)
@@ -419,6 +427,18 @@ class ReopenEngine(Engine):
                     {"step": i, "first_diff": _first_diff(h_before, decoded)}, where=i,
                 )
         return ok
+
+    def _serializer_roundtrip(self, value):
+        from rope.base.serializer import json_to_python, python_to_json
+
+        for version in (1, 2):
+            try:
+                back = json_to_python(json.loads(json.dumps(python_to_json(value, version=version))))
+            except Exception as e:
+                return version, "raised %r" % (e,)
+            if typed(back) != typed(value):
+                return version, "decoded %r" % (back,)
+        return None
 
     def _oi(self, world, st):
         # stored through the public FileDict / FileInfo / ScopeInfo interface;
